@@ -577,7 +577,7 @@ def c06_variants(seed, per_base=6, bases=None):
     import itertools as _it
     rng = random.Random(seed)
     base = [p for p in c01_curated() if p.name in (bases or ("tc", "same_gen", "mutual3", "three_dyn", "join_cond2", "facts_multihead", "two_strata", "empty_rel",
-                                                              "binder_before_join", "binder_first_clause", "join_repeat_second", "consts_repeats", "multihead_side", "reader_before_multihead", "reader_first_recursive_multihead"))]
+                                                              "binder_before_join", "binder_first_clause", "join_repeat_second", "consts_repeats", "two_expr_clauses", "multihead_side", "reader_before_multihead", "reader_first_recursive_multihead"))]
     out = []
     adversarial = ["tuple", "before", "res", "timeout", "val", "row", "matching", "changed", "total", "delta", "rel_ind", "selection_tuple", "key", "v", "i"]
     for p in base:
@@ -713,6 +713,15 @@ def c09_variants():
         rule(H("cnt", n), Agg(PV("n"), "count", [], "aa", [_])),
         rule(H("sm", x, V("s")), Cl("aa", x), Agg(PV("s"), "sum", ["y"], "bb", [x, y]))], kind="ascent_run")
     q.input_rels = ["aa", "bb"]
+    out.append(q)
+    # ascent_run! whose initialised relations are read only with every column bound (white list / black list)
+    # or only derived into: nothing but their all-columns indices exists
+    q = Program("run_init_full_index_only", [R("allowed", I, init="allowed_in"), R("blocked", I, init="blocked_in"), R("seen", I, I, init="seen_in"),
+                                              R("ok", I), R("free", I)], [
+        rule(H("ok", x), For(PV("x"), Rng(C(0), C(3))), Cl("allowed", x)),
+        rule(H("free", x), For(PV("x"), Rng(C(0), C(3))), Neg("blocked", [x])),
+        rule(H("seen", x, y), Cl("ok", x), Cl("free", y))], kind="ascent_run")
+    q.input_rels = ["allowed", "blocked", "seen"]
     out.append(q)
     for bn in ("two_strata", "agg_chain", "mutual3"):
         b = bases[bn]
